@@ -463,6 +463,135 @@ fn script_long(rng: &mut Rng, _tier: Tier, ex: &mut dyn FnMut(&str) -> String) {
     ex("note quiescent");
 }
 
+
+// ---------------------------------------------------------------------------------------------
+// E2 acks: more than 64 disjoint pending ranges at the receiver while the reverse path is out,
+// late arrivals into the holes, then the acks arrive and the network heals
+// ---------------------------------------------------------------------------------------------
+fn script_acks(rng: &mut Rng, _tier: Tier, ex: &mut dyn FnMut(&str) -> String) {
+    let sc = default_chans();
+    ex(&cfg_line(60_000, &sc, &sc));
+    ex("cli 0");
+    ex("add 100");
+    ex("setc 0");
+    let n = rng.range(140, 320) as usize;
+    let ch = rng.pick(&[1u8, 2]);
+    // phase 1: one packet per message, no acks travel back
+    for i in 0..n {
+        let m = if rng.chance(1, 30) { rng.payload(1300) } else { rand_small(rng, 8) };
+        ex(&format!("send c0 {} {}", ch, hex(&m)));
+        ex("upd c0 1000");
+        ex("flush c0");
+        let _ = i;
+    }
+    let total = n + 10; // sliced messages emit more packets: indices beyond the history answer `nohist`
+    let pattern = rng.below(4);
+    let mut lost: Vec<usize> = vec![];
+    let mut order: Vec<usize> = vec![];
+    for k in 0..total {
+        let drop = match pattern {
+            0 => k % 2 == 0,
+            1 => k % 3 == 1,
+            2 => rng.chance(2, 5),
+            _ => k % 2 == 1 && k > 4,
+        };
+        if drop {
+            lost.push(k)
+        } else {
+            order.push(k)
+        }
+    }
+    if rng.chance(1, 3) {
+        order.reverse();
+    }
+    let mut dumps = 0;
+    for (j, k) in order.iter().enumerate() {
+        ex(&format!("dlv s100 c0 {}", k));
+        if j % 40 == 39 {
+            ex("upd srv 1000");
+            ex("flush s100");
+            ex("dump s100");
+            dumps += 1;
+        }
+    }
+    let _ = dumps;
+    // late arrivals fall into the holes between the pending ranges
+    for _ in 0..rng.below(12) {
+        if lost.is_empty() {
+            break;
+        }
+        let i = rng.below(lost.len() as u64) as usize;
+        let k = lost.remove(i);
+        ex(&format!("dlv s100 c0 {}", k));
+    }
+    ex("upd srv 1000");
+    let out = ex("flush s100");
+    ex("dump s100");
+    ex("stat s100");
+    drain(ex, "s100", ch, 100_000);
+    // phase 2: the reverse path comes back: every ack packet the receiver ever produced
+    let acks = {
+        let mut c = 0;
+        // count packets emitted by s100 so far: each flush above printed `pkts k`; recount cheaply
+        c += pkts_count(&out);
+        c
+    };
+    let _ = acks;
+    for k in 0..16 {
+        let o = ex(&format!("dlv c0 s100 {}", k));
+        if o == "nohist" {
+            break;
+        }
+    }
+    ex("dump c0");
+    // phase 3: heal
+    let mut net = Net::new();
+    net.emitted.insert("c0".into(), 100_000); // history indices continue after the ones used above
+    net.emitted.insert("s100".into(), 100_000);
+    let base_c = {
+        // number of packets c0 has emitted so far = first index not answering
+        let mut lo = n;
+        while ex(&format!("dlv s100 c0 {}", lo)) != "nohist" {
+            lo += 1;
+            if lo > n + 400 {
+                break;
+            }
+        }
+        lo
+    };
+    let mut next_c = base_c;
+    let mut next_s = 0usize;
+    while ex(&format!("dlv c0 s100 {}", next_s)) != "nohist" {
+        next_s += 1;
+        if next_s > 400 {
+            break;
+        }
+    }
+    for _ in 0..45 {
+        ex("upd c0 301000");
+        ex("upd srv 301000");
+        let k = pkts_count(&ex("flush c0"));
+        for i in 0..k {
+            ex(&format!("dlv s100 c0 {}", next_c + i));
+        }
+        next_c += k;
+        let k = pkts_count(&ex("flush s100"));
+        for i in 0..k {
+            ex(&format!("dlv c0 s100 {}", next_s + i));
+        }
+        next_s += k;
+        drain(ex, "s100", ch, 100_000);
+    }
+    ex("stat c0");
+    ex("stat s100");
+    ex("note healed");
+    ex("upd c0 3100000");
+    ex("upd srv 3100000");
+    ex("dump c0");
+    ex("dump s100");
+    ex("note quiescent");
+}
+
 // ---------------------------------------------------------------------------------------------
 // E3: hostile packets injected into live sessions; second healthy connection on the same server
 // ---------------------------------------------------------------------------------------------
@@ -701,7 +830,8 @@ fn script_multi(rng: &mut Rng, tier: Tier, ex: &mut dyn FnMut(&str) -> String) {
             if rng.chance(1, 2) {
                 ex(&format!("bcast {} {}", rng.pick(&[1, 2]), hex(&m)));
             } else {
-                ex(&format!("bcastx {} {} {}", 100 + rng.below(n), rng.pick(&[1, 2]), hex(&m)));
+                let ex_id = if rng.chance(1, 3) { rng.pick(&[99u64, 999, 100 + n]) } else { 100 + rng.below(n) };
+                ex(&format!("bcastx {} {} {}", ex_id, rng.pick(&[1, 2]), hex(&m)));
             }
         }
         let dt = rng.pick(&[50_000u64, 300_000, 301_000]);
@@ -1273,6 +1403,16 @@ pub fn profiles() -> Vec<Profile> {
         new_world,
         script: script_multi,
         nontrivial: |t| t.ops.iter().any(|o| o.starts_with("bcast")) && t.outs.iter().any(|o| o.starts_with("msg ")),
+        keep: keep_cfg,
+        fixed: None,
+    },
+    Profile {
+        name: "rn-acks",
+        props: &["C08", "C01", "C02", "C06", "C13", "C16", "C09"],
+        cases: |t| if t == Tier::Quick { 40 } else { 600 },
+        new_world,
+        script: script_acks,
+        nontrivial: |t| t.outs.iter().any(|o| o.starts_with("seq=") && head_field(o, "acks").map(|a| a.split(';').count() >= 60).unwrap_or(false)),
         keep: keep_cfg,
         fixed: None,
     },
@@ -2125,18 +2265,18 @@ fn oracle_c08(ops: &[String], outs: &[String]) -> Option<OracleFail> {
 
 pub fn oracles() -> Vec<Oracle> {
     vec![
-        Oracle { prop: "C01", name: "ordered-prefix", engines: &["rn-pair", "rn-multi", "rn-timing", "rn-long"], check: oracle_c01 },
-        Oracle { prop: "C02", name: "unordered-once", engines: &["rn-pair", "rn-multi", "rn-timing", "rn-long", "rn-regress"], check: oracle_c02 },
+        Oracle { prop: "C01", name: "ordered-prefix", engines: &["rn-pair", "rn-multi", "rn-timing", "rn-long", "rn-acks"], check: oracle_c01 },
+        Oracle { prop: "C02", name: "unordered-once", engines: &["rn-pair", "rn-multi", "rn-timing", "rn-long", "rn-acks", "rn-regress"], check: oracle_c02 },
         Oracle { prop: "C03", name: "integrity", engines: &["rn-pair"], check: oracle_c03 },
         Oracle { prop: "C16", name: "roundtrip", engines: &["rn-wire"], check: oracle_c16 },
         Oracle { prop: "C06", name: "no-panic-bounded", engines: &["rn-"], check: oracle_c06 },
-        Oracle { prop: "C09", name: "accounting", engines: &["rn-pair", "rn-hostile", "rn-regress", "rn-long", "rn-timing"], check: oracle_c09 },
+        Oracle { prop: "C09", name: "accounting", engines: &["rn-pair", "rn-hostile", "rn-regress", "rn-long", "rn-timing", "rn-acks"], check: oracle_c09 },
         Oracle { prop: "C12", name: "finality-events", engines: &["rn-api", "rn-regress", "rn-hostile"], check: oracle_c12 },
-        Oracle { prop: "C13", name: "packet-size", engines: &["rn-pair", "rn-regress", "rn-multi", "rn-hostile", "rn-long", "rn-timing"], check: oracle_c13 },
+        Oracle { prop: "C13", name: "packet-size", engines: &["rn-pair", "rn-regress", "rn-multi", "rn-hostile", "rn-long", "rn-timing", "rn-acks"], check: oracle_c13 },
         Oracle { prop: "C14", name: "budget", engines: &["rn-pair", "rn-multi"], check: oracle_c14 },
         Oracle { prop: "C15", name: "resend-timing", engines: &["rn-pair", "rn-timing"], check: oracle_c15 },
         Oracle { prop: "C15", name: "prompt-and-final", engines: &["rn-timing"], check: oracle_c15_prompt },
-        Oracle { prop: "C08", name: "release-after-delivery", engines: &["rn-pair", "rn-timing", "rn-long"], check: oracle_c08 },
+        Oracle { prop: "C08", name: "release-after-delivery", engines: &["rn-pair", "rn-timing", "rn-long", "rn-acks"], check: oracle_c08 },
         Oracle { prop: "C11", name: "isolation-ordered", engines: &["rn-multi"], check: oracle_c01 },
         Oracle { prop: "C11", name: "isolation-unordered", engines: &["rn-multi"], check: oracle_c02 },
     ]
